@@ -23,6 +23,7 @@ class Ref:
         self.max = MAXSLOTS[backend]
         self.status = ["nc"] * 3          # nc | init | created
         self.lib = [0] * 3
+        self.rgn = [None] * 3             # region (address slot) mapped for the object (created or late-failed creation)
         self.inc = [0] * 3                # incarnation counter: registrations end with destroy_sandbox
         self.owners = [None] * 3 + [None] * 100   # (sbx, f); indices >= 3 are leaked heap owners of `regfill`
         self.tainted = False              # an owner outlived destroy_sandbox of its sandbox in this history (F6b territory)
@@ -42,10 +43,19 @@ class Ref:
             return None if self.dead else "ok"
         if self.dead:
             return "dead"
-        if c == "create":
-            i, ok = int(t[1]), (t[2] == "ok" or not self.vsbx)
+        if c in ("create", "createat"):
+            if c == "createat":
+                if not self.vsbx:
+                    return "na"
+                i, r, ok, libarg = int(t[1]), int(t[2]), t[3] == "ok", (t[4] if len(t) > 4 else "0")
+            else:
+                i, r, ok, libarg = int(t[1]), int(t[1]), (t[2] == "ok" or not self.vsbx), (t[3] if len(t) > 3 else "0")
             if self.status[i] != "nc":
                 return "abort"
+            if self.vsbx and any(self.rgn[j] == r for j in range(3)):
+                return "abort"          # the backend cannot map a region that is in use
+            self.rgn[i] = r
+            t = [c, str(i), "ok" if ok else "fail", libarg]
             if ok:
                 self.status[i] = "created"; self.lib[i] = int(t[3]) if len(t) > 3 and self.vsbx else 0
                 self.inc[i] += 1
@@ -57,6 +67,7 @@ class Ref:
             if self.status[i] != "created":
                 return "abort"
             self.status[i] = "nc"
+            self.rgn[i] = None
             if any(o and o[0] == i for o in self.owners):
                 self.tainted = True
             return "ok"
@@ -112,10 +123,14 @@ class Ref:
                 return "notlive"
             return f"ok {LIBNAME[self.lib[i]]}.{t[2]}" if self.vsbx else "na"
         if c == "find":
-            i = int(t[1])
+            r = int(t[1])
             if not self.vsbx:
                 return "na"
-            return f"ok found {LIBNAME[self.lib[i]]}" if self.status[i] == "created" else "ok notfound"
+            # an address of region r designates the one CREATED sandbox that lives there now -- never an earlier tenant
+            for i in range(3):
+                if self.status[i] == "created" and self.rgn[i] == r:
+                    return f"ok found {LIBNAME[self.lib[i]]}"
+            return "ok notfound"
         if c == "appptr":
             i = int(t[1])
             if self.status[i] != "created":
